@@ -78,6 +78,28 @@ def c16_cases(tier, rng):
         if rng.random() < 0.4:
             c.mail(b"s2@x.org"); c.rcpt(b"q@x.org"); c.data([b"second\r\n.tail"], closes=1)
         cases.append(c.case())
+    # a rejected (or accepted) message followed by another one on the same connection, SMTP and LMTP: the second Close
+    # returns the second message's verdict
+    for lm in (False, True):
+        for v1 in ("ok", g.se(554, "5.6.0", b"rejected"), g.se(452, "4.2.2", b"later")):
+            for v2 in ("ok", g.se(550, "5.7.1", b"no")):
+                for nr in (1, 2):
+                    c = E2E(lmtp=lm)
+                    c.mail(b"s1@x.org")
+                    for i in range(nr):
+                        c.rcpt(b"a%d@x.org" % i)
+                    c.data([b"first\r\n"], ret=v1, closes=1)
+                    c.mail(b"s2@x.org"); c.rcpt(b"b@x.org"); c.rcpt(b"c@x.org")
+                    c.data([b"second\r\n.x\r\n"], ret=v2, closes=1)
+                    c.call("noop")
+                    cases.append(c.case())
+    # a size limit on the server and a full stop (or a stuffed dot line) exactly at the limit, in the middle of a line
+    for body in (b"Hi Bob.\r\nHow are you?\r\n", b"line one\r\n.\r\ntail.\r\n", b"abc.\r\n.\r\n"):
+        for lim in range(1, len(body) + 4):
+            for parts in ([body], [body[i:i + 1] for i in range(len(body))]):
+                c = E2E(dict(ALL_ON, maxmsg=lim))
+                c.mail(b"s@x.org"); c.rcpt(b"r@x.org"); c.data(parts, ret="prop", closes=1); c.call("noop")
+                cases.append(c.case())
     for _ in range(100 if tier == "quick" else 2000):
         n = rng.randrange(0, 6000)
         body = bytes(rng.choice(b"ab.\n") if rng.random() < 0.3 else rng.randrange(32, 256) for _ in range(n))
